@@ -97,6 +97,17 @@ func c01Programs(tier string) (well [][]refsem.Step, ill [][]refsem.Step) {
 			well = append(well, p)
 		}
 	}
+	// path-centred sweep: long move chains ending in path()
+	pathMoves := 4
+	if tier == "thorough" {
+		pathMoves = 5
+	}
+	for _, p := range progenum.PathPrograms(pathMoves) {
+		if ty, _, _ := refsem.TypeOf(p); ty == refsem.WellTyped && !seen[refsem.ProgName(p)] {
+			seen[refsem.ProgName(p)] = true
+			well = append(well, p)
+		}
+	}
 	// ill-typed: also sequences that do not begin with a start
 	all := append(append([]refsem.Step{}, progenum.Starts()...), alpha...)
 	for _, a := range alpha {
